@@ -60,6 +60,7 @@ def run(chk, repo):
     c10.percpu(chk, repo)
     from . import c29
     c29.no_memo(chk, repo)
+    c29.map_route(chk, repo, "R08.7")
 
 
 def layout(chk, repo):
